@@ -224,7 +224,22 @@ class G:
         if depth >= 3 or self.nstmt > self.max_stmts or self.chance([0.25, 0.45, 0.7][min(depth, 2)]):
             return self.simple(ind)
         i2 = ind + "    "
-        c = self.r.randint(0, 13)
+        c = self.r.randint(0, 14)
+        if c == 14:
+            # del + re-assignment whose right-hand side may fail, inside a try; the handler and the code after the
+            # statement read the name: it is unbound exactly if the del ran and the assignment failed
+            self.feats.add("try:del-failing-assign")
+            v = self.pick(self.vars)
+            # the name is bound first: `del` of a definitely-unbound name is a separate recorded finding (lenient mode)
+            lines = [ind + "try:", i2 + "%s = %s" % (v, self.value(v))]
+            g = self.bit()
+            lines += [i2 + "if %s:" % g, i2 + "    del %s" % v] if self.chance(0.5) else [i2 + "del %s" % v]
+            lines += [i2 + "%s = RV(%s, %s)" % (v, self.bit(), self.value(v))]
+            lines += self.s_read(i2, v) if self.chance(0.5) else []
+            lines += [ind + "except (EA, NameError):"] + self.s_read(i2, v)
+            if self.chance(0.4):
+                lines += [ind + "finally:"] + self.s_read(i2, v)
+            return lines + self.s_read(ind, v)
         if c <= 3:
             self.feats.add("if")
             lines = [ind + "if %s:" % self.bit()] + self.block(i2, depth + 1)
